@@ -39,7 +39,8 @@ func ParseAndValidateServerName(serverName ServerName) (host string, port int, v
 			return
 		}
 		ip := host[1 : len(host)-1]
-		if net.ParseIP(ip) == nil {
+		// net.ParseIP also parses IPv4 addresses, which have no colon
+		if net.ParseIP(ip) == nil || !strings.Contains(ip, ":") {
 			return
 		}
 		valid = true
